@@ -166,3 +166,254 @@ Proof.
         rewrite Hnth in Hlast. exact Hlast.
 Qed.
 End PathA.
+
+(* ---------------- (B) the construction yields a good path ---------------- *)
+Lemma wrap_type_oid : forall lit value f vo w,
+  wrap_type lit value f vo = ROk w -> node_oid w = f \/ node_oid w = vo.
+Proof.
+  intros lit value f vo w H. unfold wrap_type, rbind in H. cbv zeta in H.
+  destruct (of_outcome (typed_value lit value)) as [ast|e]; [|discriminate].
+  repeat match type of H with
+  | context [match ?t with _ => _ end] => destruct t
+  end; try discriminate; inversion H; simpl; auto.
+Qed.
+
+Lemma pads_all_ids : forall lit n rest value next vo l next',
+  pads lit n rest value next vo = ROk (l, next') ->
+  (next <= next')%N /\
+  Forall (fun x => exists fr, (next <= fr < next')%N /\ build_next lit rest value fr vo = ROk x) l.
+Proof.
+  intros lit n. induction n as [|m IH]; intros rest value next vo l next' H; simpl in H.
+  - inversion H; subst. split; [lia|constructor].
+  - destruct (build_next lit rest value next vo) as [x|e] eqn:Eb; simpl in H; [|discriminate].
+    destruct (pads lit m rest value (N.succ next) vo) as [[l0 n0]|e] eqn:E; simpl in H; [|discriminate].
+    inversion H; subst. destruct (IH _ _ _ _ _ _ E) as [Hle Hall]. split; [lia|].
+    constructor.
+    + exists next. split; [lia|exact Eb].
+    + eapply Forall_impl; [|exact Hall]. intros a [fr [Hfr Hb]]. exists fr. split; [lia|exact Hb].
+Qed.
+
+Lemma build_next_cont_shape : forall lit s2 rest2 value next vo x,
+  build_next lit (s2 :: rest2) value next vo = ROk x ->
+  x = NSeq (mkinfo next None true None) [] \/ x = NMap (mkinfo next None true None) [].
+Proof. intros lit s2 rest2 value next vo x H. destruct s2; simpl in H; inversion H; auto. Qed.
+
+Theorem grow_gpath : forall lit segs cur pc next vo value g pc' next' s rest,
+  segs = s :: rest ->
+  grow lit segs cur pc next vo value = ROk (g, pc', next') ->
+  seg_child cur s = None -> is_set cur = false -> (vo < next)%N ->
+  exists w f, wrap_type lit value f vo = ROk w /\ (next <= f)%N /\
+    forall roid, roid = node_oid w -> node_oid cur <> roid -> keys_avoid1 roid cur -> gpath roid w pc' g segs.
+Proof.
+  intros lit segs. induction segs as [|s0 rest0 IH];
+    intros cur pc next vo value g pc' next' s rest Hs Hg Hnone Hset Hvo; [discriminate|].
+  inversion Hs; subst s0 rest0. clear Hs.
+  simpl in Hg. destruct cur as [i v|i kvs|i els|i els]; [discriminate| | |discriminate].
+  - (* mapping *)
+    destruct s as [k ko|z]; [|discriminate].
+    destruct (build_next lit rest value next vo) as [child|e] eqn:Eb; simpl in Hg; [|discriminate].
+    destruct (grow lit rest child (mkpc (Some (oid i)) (PStr k)) (N.succ (N.succ next)) vo value)
+      as [[[c1 p1] n1]|e] eqn:Eg; simpl in Hg; [|discriminate].
+    inversion Hg; subst g pc' next'. clear Hg.
+    assert (Hsc : seg_child (NMap i (kvs ++ [(key_leaf k ko (N.succ next), c1)])) (SKey k ko) = Some c1).
+    { unfold seg_child in *. simpl in *. rewrite assoc_key_app_none by assumption.
+      simpl. rewrite py_eq_str_refl. reflexivity. }
+    assert (Hkeys : forall roid, keys_avoid1 roid (NMap i kvs) ->
+              keys_avoid1 roid (NMap i (kvs ++ [(key_leaf k ko (N.succ next), c1)]))).
+    { intros roid Hk kv Hkv. apply in_app_or in Hkv. destruct Hkv as [Hkv|[<-|[]]]; [apply Hk; exact Hkv|].
+      simpl. apply andb_false_r. }
+    destruct rest as [|s2 rest2].
+    + simpl in Eg. inversion Eg; subst c1 p1 n1. simpl in Eb.
+      exists child, next. split; auto. split; [lia|].
+      intros roid Hr Hn Hk. cbn [gpath]. repeat split; auto.
+      exists child. split; auto.
+    + destruct (build_next_empty _ _ _ _ _ _ _ Eb) as [A B].
+      destruct (IH child _ _ _ _ _ _ _ s2 rest2 eq_refl Eg A B) as [w [f [Hw [Hf Hgp]]]]; [lia|].
+      exists w, f. split; auto. split; [lia|].
+      intros roid Hr Hn Hk. cbn [gpath]. repeat split; auto.
+      exists c1. split; auto. apply Hgp; auto.
+      * destruct (build_next_cont _ _ _ _ _ _ _ Eb) as [_ B2]. rewrite B2.
+        destruct (wrap_type_oid _ _ _ _ _ Hw) as [E|E]; rewrite Hr, E; lia.
+      * destruct (build_next_cont_shape _ _ _ _ _ _ _ Eb) as [-> | ->]; simpl; auto. intros kv [].
+  - (* sequence *)
+    change (match s with SIdx z => Some z | SKey k _ => py_int k end) with (seg_int s) in Hg.
+    destruct (seg_int s) as [z|] eqn:Ez; [|discriminate].
+    destruct (pads lit (Z.to_nat (z - Z.of_nat (length els) + 1)) rest value next vo) as [[l n0]|e] eqn:Ep;
+      simpl in Hg; [|discriminate].
+    destruct (last_and_init l) as [[init lastn]|] eqn:El; [|discriminate].
+    destruct (grow lit rest lastn (mkpc (Some (oid i)) (PInt z)) n0 vo value) as [[[c1 p1] n1]|e] eqn:Eg;
+      simpl in Hg; [|discriminate].
+    inversion Hg; subst g pc' next'. clear Hg.
+    pose proof (pads_length _ _ _ _ _ _ _ _ Ep) as Hlen.
+    destruct (pads_all_ids _ _ _ _ _ _ _ _ Ep) as [Hle Hall].
+    apply last_and_init_spec in El. subst l.
+    rewrite app_length in Hlen. simpl in Hlen.
+    assert (Hz : (Z.of_nat (length els) <= z)%Z) by lia.
+    assert (Hli : (length els + length init = Z.to_nat z)%nat) by lia.
+    assert (Hsc : seg_child (NSeq i (els ++ init ++ [c1])) s = Some c1).
+    { unfold seg_child, seg_ref. rewrite Ez.
+      replace (0 <=? z)%Z with true by (symmetry; apply Z.leb_le; lia). simpl.
+      rewrite app_assoc. rewrite nth_error_app2 by (rewrite app_length; lia).
+      rewrite app_length. replace (Z.to_nat z - (length els + length init))%nat with 0%nat by lia. reflexivity. }
+    assert (Hlast : exists fr, (next <= fr < n0)%N /\ build_next lit rest value fr vo = ROk lastn).
+    { rewrite Forall_forall in Hall. apply Hall. apply in_or_app. right. left. reflexivity. }
+    destruct Hlast as [fr [Hfr Eb]].
+    assert (Hpref : seg_pref (NSeq i (els ++ init ++ [c1])) s = PInt z) by (unfold seg_pref; rewrite Ez; reflexivity).
+    destruct rest as [|s2 rest2].
+    + simpl in Eg. inversion Eg; subst c1 p1 n1. simpl in Eb.
+      exists lastn, fr. split; auto. split; [lia|].
+      intros roid Hr Hn Hk. cbn [gpath]. repeat split; auto.
+      exists lastn. split; auto. split; auto. rewrite Hpref. reflexivity.
+    + destruct (build_next_empty _ _ _ _ _ _ _ Eb) as [A B].
+      destruct (IH lastn _ _ _ _ _ _ _ s2 rest2 eq_refl Eg A B) as [w [f [Hw [Hf Hgp]]]]; [lia|].
+      exists w, f. split; auto. split; [lia|].
+      intros roid Hr Hn Hk. cbn [gpath]. repeat split; auto.
+      exists c1. split; auto. apply Hgp; auto.
+      * destruct (build_next_cont _ _ _ _ _ _ _ Eb) as [_ B2]. rewrite B2.
+        destruct (wrap_type_oid _ _ _ _ _ Hw) as [E|E]; rewrite Hr, E; lia.
+      * destruct (build_next_cont_shape _ _ _ _ _ _ _ Eb) as [-> | ->]; simpl; auto. intros kv [].
+Qed.
+
+Lemma keys_avoid_child : forall x c n, is_child c n -> keys_avoid x n = true -> keys_avoid x c = true.
+Proof.
+  intros x c n Hc Hk. destruct n as [i v|i kvs|i els|i els]; simpl in *.
+  - contradiction.
+  - destruct Hc as [kv [Hkv <-]]. rewrite forallb_forall in Hk. specialize (Hk kv Hkv).
+    apply andb_true_iff in Hk. tauto.
+  - rewrite forallb_forall in Hk. auto.
+  - destruct Hc as [_ Hc]. destruct c; try discriminate. reflexivity.
+Qed.
+
+Lemma keys_avoid_1 : forall x n, keys_avoid x n = true -> keys_avoid1 x n.
+Proof.
+  intros x n H. destruct n as [i v|i kvs|i els|i els]; simpl in *; auto.
+  intros kv Hkv. rewrite forallb_forall in H. specialize (H kv Hkv). apply andb_true_iff in H.
+  destruct H as [H _]. apply negb_true_iff in H. exact H.
+Qed.
+
+Lemma walk_leaf_fails : forall lit s rest i v pc d next vo value,
+  exists e, walk lit (s :: rest) (NLeaf i v) pc d next vo value = RErr e.
+Proof.
+  intros. rewrite walk_unfold.
+  assert (E : found_of (NLeaf i v) s = ROk None) by (destruct s; reflexivity).
+  rewrite E. simpl. eexists. reflexivity.
+Qed.
+
+Lemma put_key_keys : forall k v kvs kv', In kv' (put_key k v kvs) -> exists kv, In kv kvs /\ fst kv' = fst kv.
+Proof.
+  induction kvs as [|kv0 r IH]; intros kv' H; simpl in *; [contradiction|].
+  destruct (key_is k kv0).
+  - destruct H as [<-|H]; [exists kv0; auto|exists kv'; auto].
+  - destruct H as [<-|H]; [exists kv0; auto|]. destruct (IH kv' H) as [kv [H1 H2]]. exists kv; auto.
+Qed.
+
+Lemma null_put_shape : forall roid cur s v,
+  node_oid (null_put cur s v) = node_oid cur /\ is_set (null_put cur s v) = is_set cur /\
+  (keys_avoid1 roid cur -> keys_avoid1 roid (null_put cur s v)).
+Proof.
+  intros roid cur s v. destruct cur as [i x|i kvs|i els|i els]; simpl; auto.
+  - destruct s as [k ko|z]; simpl; auto. repeat split; auto.
+    intros Hk kv' Hkv'. destruct (put_key_keys _ _ _ _ Hkv') as [kv [H1 H2]]. rewrite H2. apply Hk. exact H1.
+  - destruct (match s with SIdx z => Some z | SKey k _ => py_int k end); simpl; auto.
+Qed.
+
+Lemma putf_shape : forall roid o c' cur, is_obj o cur = false ->
+  node_oid (putf o c' cur) = node_oid cur /\ is_set (putf o c' cur) = is_set cur /\
+  (keys_avoid1 roid cur -> keys_avoid1 roid (putf o c' cur)).
+Proof.
+  intros roid o c' cur Ho. destruct cur as [i x|i kvs|i els|i els]; simpl; rewrite ?Ho; simpl; auto.
+  repeat split; auto. intros Hk kv' Hkv'. apply in_map_iff in Hkv'. destruct Hkv' as [kv [<- Hkv]]. simpl.
+  apply Hk. exact Hkv.
+Qed.
+
+Theorem walk_gpath : forall lit segs cur pc d next vo value d' pc' next',
+  wf_doc cur ->
+  walk lit segs cur pc d next vo value = ROk (d', pc', next') ->
+  creates cur segs = true -> (vo < next)%N ->
+  (forall x, (next <= x)%N \/ x = vo -> ~ In x (coids cur) /\ keys_avoid x cur = true) ->
+  exists o c', In o (coids cur) /\ d' = put_obj o c' d /\
+    exists w f, wrap_type lit value f vo = ROk w /\ (next <= f)%N /\
+                gpath (node_oid w) w pc' (putf o c' cur) segs.
+Proof.
+  intros lit segs. induction segs as [|s rest IH]; intros cur pc d next vo value d' pc' next' Hwf H Hcr Hvo Hok.
+  - discriminate.
+  - destruct (found_of cur s) as [[[c cpc]|]|e] eqn:Ef.
+    + pose proof (found_is_child _ _ _ _ Ef) as Hc.
+      pose proof (found_agrees _ _ _ Ef) as Hsc. simpl in Hsc.
+      destruct (null_step_cases c rest) as [Hgo|[ci [s2 [rest2 [-> ->]]]]].
+      * rewrite (walk_go _ _ _ _ _ _ _ _ _ _ _ Ef Hgo) in H.
+        rewrite (creates_step _ _ _ _ Hsc Hgo) in Hcr.
+        assert (Hokc : forall x, (next <= x)%N \/ x = vo -> ~ In x (coids c) /\ keys_avoid x c = true).
+        { intros x Hx. destruct (Hok x Hx) as [H1 H2]. split.
+          - intro Hin. apply H1. apply (proj1 (child_coids _ _ _ Hc Hin)).
+          - eapply keys_avoid_child; eauto. }
+        destruct (IH c cpc d next vo value d' pc' next' (child_wf _ _ Hc Hwf) H Hcr Hvo Hokc)
+          as [o [c' [Ho [Hd [w [f [Hw [Hf Hgp]]]]]]]].
+        exists o, c'. destruct (child_coids _ _ _ Hc Ho) as [Hin Hne].
+        split; auto. split; auto. exists w, f. split; auto. split; auto.
+        pose proof (not_coid_is_obj _ _ (Hne Hwf)) as Hno.
+        pose proof (seg_child_putf o c' cur s c Hsc Hno) as Hp.
+        destruct (putf_shape (node_oid w) o c' cur Hno) as [P1 [P2 P3]].
+        assert (Hroid : (next <= node_oid w)%N \/ node_oid w = vo)
+          by (destruct (wrap_type_oid _ _ _ _ _ Hw) as [E|E]; rewrite E; [left; lia|right; reflexivity]).
+        destruct (Hok _ Hroid) as [Hnc Hka].
+        destruct rest as [|s2 rest2]; [simpl in Hcr; discriminate|].
+        cbn [gpath]. repeat split.
+        -- rewrite P1. intro E. apply Hnc. rewrite <- E.
+           destruct cur as [i x|i kvs|i els|i els]; simpl in *; auto; try contradiction.
+        -- apply P3. apply keys_avoid_1. exact Hka.
+        -- rewrite P2. destruct cur as [i x|i kvs|i els|i els]; auto.
+           (* a member of a set is a scalar: the walk cannot go on below it *)
+           (* its member c is a scalar and holds no container, but o is one of c's *)
+           simpl in Hc. destruct Hc as [_ Hl]. destruct c; try discriminate; try (simpl in Ho; contradiction).
+        -- exists (putf o c' c). split; auto.
+      * (* the existing prefix ends at a null *)
+        rewrite (walk_null _ _ _ _ _ _ _ _ _ _ _ _ Ef) in H. unfold rbind in H.
+        assert (Hcur : exists o, coid cur = Some o /\ is_set cur = false /\
+                  exists cont g, build_next lit (s2 :: rest2) value next vo = ROk cont /\
+                    grow lit (s2 :: rest2) cont cpc (N.succ next) vo value = ROk g /\
+                    d' = put_obj o (null_put cur s (fst (fst g))) d /\ pc' = snd (fst g)).
+        { destruct cur as [i x|i kvs|i els|i els]; try discriminate;
+            (destruct (build_next lit (s2 :: rest2) value next vo) as [cont|e] eqn:Eb; [|discriminate]);
+            (destruct (grow lit (s2 :: rest2) cont cpc (N.succ next) vo value) as [g|e] eqn:Eg; [|discriminate]);
+            simpl in H; inversion H; subst; eexists; (split; [reflexivity|]); (split; [reflexivity|]);
+            exists cont, g; auto. }
+        destruct Hcur as [o [Ec [Hns [cont [[[g0 pc0] n0] [Eb [Eg [-> ->]]]]]]]]. simpl.
+        exists o, (null_put cur s g0). split; [apply coid_in_coids; auto|]. split; auto.
+        rewrite (putf_obj o _ cur (coid_is_obj _ _ Ec)).
+        destruct (build_next_empty _ _ _ _ _ _ _ Eb) as [A B].
+        destruct (grow_gpath lit (s2 :: rest2) cont cpc (N.succ next) vo value g0 pc0 n0 s2 rest2 eq_refl Eg A B)
+          as [w [f [Hw [Hf Hgp]]]]; [lia|].
+        exists w, f. split; auto. split; [lia|].
+        assert (Hroid : (next <= node_oid w)%N \/ node_oid w = vo)
+          by (destruct (wrap_type_oid _ _ _ _ _ Hw) as [E|E]; rewrite E; [left; lia|right; reflexivity]).
+        destruct (Hok _ Hroid) as [Hnc Hka].
+        destruct (null_put_shape (node_oid w) cur s g0) as [P1 [P2 P3]].
+        cbn [gpath]. repeat split.
+        -- rewrite P1. intro E. apply Hnc. rewrite <- E.
+           destruct cur as [i x|i kvs|i els|i els]; simpl in *; auto; try discriminate.
+        -- apply P3. apply keys_avoid_1. exact Hka.
+        -- rewrite P2. exact Hns.
+        -- exists g0. split; [apply (null_put_child cur s ci cpc g0 Ef)|].
+           apply Hgp; auto.
+           ++ destruct (build_next_cont _ _ _ _ _ _ _ Eb) as [_ B2]. rewrite B2.
+              destruct (wrap_type_oid _ _ _ _ _ Hw) as [E|E]; rewrite E; lia.
+           ++ destruct (build_next_cont_shape _ _ _ _ _ _ _ Eb) as [-> | ->]; simpl; auto. intros kv [].
+    + rewrite walk_unfold, Ef in H. unfold rbind in H.
+      destruct (grow lit (s :: rest) cur pc next vo value) as [[[g0 pc0] n0]|e] eqn:Eg; [|discriminate].
+      destruct (coid cur) as [o|] eqn:Ec; [|discriminate]. simpl in H. inversion H; subst.
+      pose proof (found_agrees _ _ _ Ef) as Hsc. simpl in Hsc.
+      simpl in Hcr. rewrite Hsc in Hcr. apply negb_true_iff in Hcr.
+      exists o, g0. split; [apply coid_in_coids; auto|]. split; auto.
+      rewrite (putf_obj o _ cur (coid_is_obj _ _ Ec)).
+      destruct (grow_gpath lit (s :: rest) cur pc next vo value g0 pc' next' s rest eq_refl Eg Hsc Hcr Hvo)
+        as [w [f [Hw [Hf Hgp]]]].
+      exists w, f. split; auto. split; auto.
+      assert (Hroid : (next <= node_oid w)%N \/ node_oid w = vo)
+        by (destruct (wrap_type_oid _ _ _ _ _ Hw) as [E|E]; rewrite E; [left; lia|right; reflexivity]).
+      destruct (Hok _ Hroid) as [Hnc Hka].
+      apply Hgp; auto.
+      * intro E. apply Hnc. rewrite <- E. destruct cur as [i x|i kvs|i els|i els]; simpl in *; auto; try discriminate.
+      * apply keys_avoid_1. exact Hka.
+    + rewrite walk_unfold, Ef in H. discriminate.
+Qed.
